@@ -496,6 +496,23 @@ func checkC12IDs(r *Report, p *Prog) {
 		fc.ensureConds()
 		r.Fn(p.FnName(fn))
 		cons := p.FnName(fn) + ": n fresh bytes from the configured random source, no return on error"
+		// a wrapper that hands the configured reader and the count to a helper (possibly of another package of the
+		// module) and returns what it returns: the helper is judged with the reader bound
+		body, count := fn, ssa.Value(fn.Params[0])
+		if ret := singleReturn(fn); ret != nil && len(ret.Results) == 1 {
+			if c, ok := Resolve(ret.Results[0]).(*ssa.Call); ok {
+				if h := c.Call.StaticCallee(); h != nil && p.InModule(h) && len(h.Blocks) > 0 && len(methodCallsOn(fn, "io.ReadFull")) == 0 {
+					for i, arg := range c.Call.Args {
+						if arg == ssa.Value(fn.Params[0]) && i < len(h.Params) {
+							body, count = h, h.Params[i]
+							fc = fc.inlineCtx(h, c.Call.Args, c)
+							fc.ensureConds()
+						}
+					}
+				}
+			}
+		}
+		fn := body
 		var why []string
 		var fill *ssa.Call
 		for _, c := range methodCallsOn(fn, "io.ReadFull") {
@@ -507,7 +524,7 @@ func checkC12IDs(r *Report, p *Prog) {
 			why = append(why, "the buffer is not filled with io.ReadFull(RandReader, buf) (a plain Read may return fewer bytes)")
 		} else {
 			ms, ok := fill.Call.Args[1].(*ssa.MakeSlice)
-			if !ok || ms.Len != ssa.Value(fn.Params[0]) {
+			if !ok || ms.Len != count {
 				why = append(why, "the buffer is not a fresh make([]byte, n)")
 			}
 			nm := "isnil(" + fc.AP(fill) + "#1)"
